@@ -151,4 +151,11 @@ def run(ctx):
                   'rewrite BlockNumber(number) and rollback_to_block leaves TxHash records behind')
     # reviewed reference of the storage functions' durable writes (engine/census.py)
     from rules import census_fns
+    # ---- every in-flight fetch of the peer is released: the per-hash loops visit all hashes (seeded C11-4: `return` for `continue`) ----
+    _nl = 0
+    for _fn in ('Peers::mark_fetching_headers_timeout', 'Peers::mark_fetching_txs_timeout', 'Peers::mark_fetching_headers_missing', 'Peers::mark_fetching_txs_missing'):
+        if P.has(_fn):
+            _nl += ctx.loop_visits_all('C16.r5', ctx.body(_fn), 'the per-hash loop visits every hash of the request (no return inside the loop)',
+                                       'request for [h1, h2] where h1 was already answered: the loop returns at h1, h2 stays `fetching` for ever')
+    ctx.floor('C16.r5', 'per-hash loops of the fetch bookkeeping', _nl, 2)
     census_fns.run(ctx, 'C16')
